@@ -48,6 +48,7 @@ func C07(ctx *core.Ctx) {
 	ctx.Rule("C07.R3", "unsubscribe reaches workers: the loop's quit channel is closed exactly once on Unsubscribe's success path and the broker subscription is cancelled", 4)
 	ctx.Rule("C07.R4", "ack discipline: a message is acknowledged only on the nil-error edge of the callback", 1)
 	ctx.Rule("C07.R11", "a STOMP subscriber acknowledges off its consuming goroutine (a synchronous Conn.Ack deadlocks with go-stomp's read loop under back-pressure)", 1)
+	ctx.Rule("C07.R15", "Unsubscribe can be repeated after a failure: once the quit channel is closed every return clears the subscribed flag (no second close)", 2)
 	ctx.Rule("C07.R14", "a subscriber transport that can be subscribed again arms a fresh quit channel in Subscribe (Unsubscribe closes the previous one)", 2)
 	c07SubjectAgreement(ctx, r)
 	c07SubscriptionIdentity(ctx, r)
@@ -315,6 +316,69 @@ func C07(ctx *core.Ctx) {
 				}
 				ctx.Check(mn == 1 && mx == 1, "C07.R3", ssax.Name(unsub)+" › closes the workers' quit channel ("+quitField+") exactly once", fnPos(r, unsub), "close("+quitField+") once on the success path",
 					sprintf("Unsubscribe closes the quit channel %d..%d times on a successful path: workers keep delivering after Unsubscribe returned, or a double close panics", mn, mx))
+				// ---- R15: a closed quit channel is never left behind an open guard ---------
+				// Unsubscribe is guarded by the subscribed flag; once it has closed the quit
+				// channel every way out must clear that flag — a return that leaves the flag
+				// set (the broker call failed) makes the next Unsubscribe close the channel
+				// again: `panic: close of closed channel`.
+				{
+					flag := ""
+					if len(unsub.Blocks) > 0 {
+						ssax.Instrs(unsub, func(in ssa.Instruction) {
+							if flag != "" {
+								return
+							}
+							if iff, isIf := in.(*ssa.If); isIf {
+								var walk func(v ssa.Value, d int)
+								walk = func(v ssa.Value, d int) {
+									if d > 3 || flag != "" {
+										return
+									}
+									if ld, isLd := v.(*ssa.UnOp); isLd && ld.Op == token.MUL {
+										if b, isB := ld.Type().Underlying().(*types.Basic); isB && b.Kind() == types.Bool {
+											flag = fieldNameOfAddr(ld.X)
+											return
+										}
+									}
+									if x, isI := v.(ssa.Instruction); isI {
+										for _, op := range x.Operands(nil) {
+											if *op != nil {
+												walk(*op, d+1)
+											}
+										}
+									}
+								}
+								walk(iff.Cond, 0)
+							}
+						})
+					}
+					if flag != "" {
+						clears := func(in ssa.Instruction) bool {
+							st, ok := in.(*ssa.Store)
+							if !ok || fieldNameOfAddr(st.Addr) != flag {
+								return false
+							}
+							k, isK := st.Val.(*ssa.Const)
+							return isK && k.Value != nil && k.Value.String() == "false"
+						}
+						bad := ""
+						ssax.Instrs(unsub, func(in ssa.Instruction) {
+							if isClose(in) {
+								cleared := false // already cleared on the way to the close?
+								ssax.Instrs(unsub, func(c2 ssa.Instruction) {
+									if clears(c2) && ssax.Dominates(c2, in) {
+										cleared = true
+									}
+								})
+								if p := ssax.PathFrom(unsub, in, ssax.IsReturn, clears); p != nil && !cleared {
+									bad = r.IPos(in)
+								}
+							}
+						})
+						ctx.Check(bad == "", "C07.R15", ssax.Name(unsub)+" › after close("+quitField+") every return clears "+flag, fnPos(r, unsub), "the flag is cleared on every path from the close to a return",
+							"Unsubscribe closes "+quitField+" at "+bad+" and can then return with "+flag+" still set (the broker call failed): the next Unsubscribe passes the guard and closes the channel a second time — panic: close of closed channel — in the application's goroutine")
+					}
+				}
 				cancel := false
 				for _, c := range ssax.Calls(unsub) {
 					if c.ShortName() == "Unsubscribe" && c.Static != nil && c.Static.Pkg != r.Pkg {
